@@ -5,7 +5,7 @@
    Spec: Spec/Place.v ([Feasible], [wf_problem] = the documented domain, [consistent]). *)
 From Coq Require Import ZArith List Bool.
 Require Import Rig.Model.Base Rig.Model.Place Rig.Spec.Place Rig.Proofs.Place Rig.Proofs.PlaceCore
-        Rig.Proofs.PlaceMerge Rig.Proofs.PlaceSeq.
+        Rig.Proofs.PlaceMerge Rig.Proofs.PlaceSeq Rig.Proofs.PlaceComplete.
 Import ListNotations.
 Open Scope Z_scope.
 
@@ -37,6 +37,41 @@ Theorem C02_rand_place_sound :
     rand_place vr m cs oracle = Ok pl -> Feasible vr m cs pl.
 Proof. exact rand_place_sound. Qed.
 
+(* U -- termination.  The model of the sequential family has no loop bound of its own (the cyclic scan is a
+   structural recursion over the chips still to be tried); it is a total function and never reports an
+   exhausted bound: the `while True` loop of sequential.place always ends, whatever the orders. *)
+Theorem C02_seq_place_terminates :
+  forall vr m cs vertex_order chip_order, seq_place vr m cs vertex_order chip_order <> OutOfFuel.
+Proof. exact seq_place_terminates. Qed.
+
+(* U -- completeness clause.  Under the premise of the property's last sentence (every vertex needs at most
+   one unit of the single resource r0, no same-chip groups, reservations fit, location-constrained vertices
+   fit on their working chips, the total free capacity suffices) the sequential family succeeds, for every
+   vertex order listing exactly the vertices and every chip order listing each working chip exactly once
+   (None = the default orders, which do). *)
+Theorem C02_seq_place_complete :
+  forall vr m cs r0 vertex_order chip_order,
+    wf_problem vr m cs -> unit_premise vr m cs r0 ->
+    (forall vo, vertex_order = Some vo -> vertex_order_ok vr vo) ->
+    (forall co, chip_order = Some co -> chip_order_ok m co) ->
+    exists pl, seq_place vr m cs vertex_order chip_order = Ok pl.
+Proof. exact seq_place_complete. Qed.
+
+(* U -- random placer: completeness under the same premise and termination, for every stream of random
+   choices of length >= |vertices| + |working chips| (a rejected chip leaves the candidate set, so no run of
+   rand.place draws more than that many samples). *)
+Theorem C02_rand_place_complete :
+  forall vr m cs r0 oracle,
+    wf_problem vr m cs -> unit_premise vr m cs r0 ->
+    (length vr + length (raster m) <= length oracle)%nat ->
+    exists pl, rand_place vr m cs oracle = Ok pl.
+Proof. exact rand_place_complete. Qed.
+
+Theorem C02_rand_place_terminates :
+  forall vr m cs oracle,
+    (length vr + length (raster m) <= length oracle)%nat -> rand_place vr m cs oracle <> OutOfFuel.
+Proof. exact rand_place_terminates. Qed.
+
 (* Non-vacuity: a problem with a same-chip group, a location constraint on a member of the group, a global
    reservation and a resource exception meets the hypotheses, and both placers succeed on it. *)
 Example C02_hypotheses_satisfiable :
@@ -44,3 +79,10 @@ Example C02_hypotheses_satisfiable :
   /\ seq_place ex_vr ex_m ex_cs None None = Ok [(3, (1, 0)); (4, (1, 0)); (1, (0, 0)); (2, (0, 0))]
   /\ rand_place ex_vr ex_m ex_cs [1%nat; 0%nat; 5%nat] = Ok [(3, (1, 0)); (4, (0, 0)); (1, (0, 0)); (2, (0, 0))].
 Proof. exact ex_seq_instance. Qed.
+
+Example C02_complete_premise_satisfiable :
+  wf_problem exc_vr exc_m exc_cs /\ unit_premise exc_vr exc_m exc_cs 0
+  /\ vertex_order_ok exc_vr [3; 1; 2] /\ chip_order_ok exc_m [(1, 0); (5, 5); (0, 0)]
+  /\ seq_place exc_vr exc_m exc_cs (Some [3; 1; 2]) (Some [(1, 0); (5, 5); (0, 0)])
+     = Ok [(1, (1, 0)); (3, (1, 0)); (2, (0, 0))].
+Proof. exact exc_instance. Qed.
